@@ -145,6 +145,9 @@ func (g *Gen) Next() world.Event {
 			}
 			return world.Event{N: n, K: "sched", Shard: sh, Sched: &s}
 		case "restart":
+			if g.R.Intn(4) == 0 {
+				return world.Event{N: n, K: "hostapi", Shard: uint32(g.R.Intn(len(w.Nodes))), ID: world.RemovableFunctions[g.R.Intn(len(world.RemovableFunctions))]}
+			}
 			ev := world.Event{N: n, K: "restart", Shard: uint32(g.R.Intn(len(w.Nodes)))}
 			if g.R.Intn(3) == 0 {
 				ev.Probe = "same-factory"
